@@ -8,6 +8,7 @@ import (
 	"testing"
 
 	"github.com/cenkalti/rain/v2/internal/tracker"
+	"github.com/cenkalti/rain/v2/torrent"
 	"github.com/cenkalti/rain/v2/zzverif/core"
 )
 
@@ -32,6 +33,8 @@ func mkC20() *Scenario {
 	ops := 0
 	sc.Setup = func(w *World) {
 		json.Unmarshal(w.Arg, &arg)
+		// handlers that answer a caller are held in front of the reply send: the caller may give up in between
+		torrent.VerifYieldReplies = true
 		w.OpenSession()
 		g := Gen(LayoutMulti(32768, 40000, 50000))
 		w.AddTorrent(g, nil)
@@ -61,6 +64,7 @@ func mkC20() *Scenario {
 		{"AddTracker", func(w *World) any { return w.Tor.AddTracker("http://10.7.7.7/announce") }},
 		{"Stop", func(w *World) any { return w.Tor.Stop() }},
 		{"Start", func(w *World) any { return w.Tor.Start() }},
+		{"Remove", func(w *World) any { return w.S.RemoveTorrent(w.Tor.ID(), true) }},
 	}
 	sc.Actions = func(w *World) []Action {
 		acts := StdActions(w)
@@ -117,7 +121,7 @@ func TestC20Lab(t *testing.T) {
 	if core.Thorough() {
 		depth = 3
 	}
-	rep.Rule = fmt.Sprintf("started torrent with two explorer-answered trackers (with and without a connected seed) on the real event loop: every placement of <= %d API calls (quick tier: 1 while a download is in progress) {Trackers, Stats, Peers, Webseeds, Announce, AddPeer, AddTracker, Stop, Start} into the schedule (free wherever the loop has nothing to take, one deviation elsewhere) combined with every single reordering of tracker answers, peer answers and loop deliveries; a handler that has not returned when every goroutine is durably blocked, or a call that never returns, is a lock-up", depth)
+	rep.Rule = fmt.Sprintf("started torrent with two explorer-answered trackers (with and without a connected seed) on the real event loop: every placement of <= %d API calls (quick tier: 1 while a download is in progress) {Trackers, Stats, Peers, Webseeds, Announce, AddPeer, AddTracker, Stop, Start, RemoveTorrent} into the schedule (free wherever the loop has nothing to take, one deviation elsewhere) combined with every single reordering of tracker answers, peer answers and loop deliveries; handlers that answer a caller are split in front of the reply send, so another call (RemoveTorrent closing the torrent) can fall between request and reply; a handler that has not returned when every goroutine is durably blocked, or a call that never returns, is a lock-up", depth)
 	rep.Assumptions = []string{"handlers are atomic towards each other (loop ownership); locks of the Session are the threadlab part", "helper goroutines run to their next blocking point between explorer steps"}
 	var runs []Run
 	for _, seed := range []bool{false, true} {
